@@ -271,7 +271,7 @@ func (env *Env) selectField(x Val, name string) Val {
 	if x.T == nil {
 		env.fail("selector .%s on untyped value", name)
 	}
-	obj, path, _ := types.LookupFieldOrMethod(x.T, true, env.pkg, name)
+	obj, path, _ := lookupField(x.T, env.pkg, name)
 	fld, ok := obj.(*types.Var)
 	if !ok || !fld.IsField() {
 		env.fail("no field %s in %v", name, x.T)
@@ -851,6 +851,16 @@ func (env *Env) call(x *CCall) Val {
 			ref = "(i_val " + v.E + ")"
 		}
 		return Val{E: fmt.Sprintf("(and (>= %s %s) (< %s %s))", ref, em.heapGet(env.old, "top", sInt), ref, em.heapGet(env.st, "top", sInt)), S: sBool, T: types.Typ[types.Bool]}
+	case "disjoint":
+		// disjoint(a, b): the slices a and b share no backing array (or one of them has none)
+		if len(x.Args) != 2 {
+			env.fail("disjoint(a, b)")
+		}
+		a, b := env.eval(x.Args[0]), env.eval(x.Args[1])
+		if a.S != sSlice || b.S != sSlice {
+			env.fail("disjoint() of non-slices")
+		}
+		return Val{E: fmt.Sprintf("(or (not (= (s_arr %s) (s_arr %s))) (= (s_cap %s) 0) (= (s_cap %s) 0))", a.E, b.E, a.E, b.E), S: sBool, T: types.Typ[types.Bool]}
 	case "allocated":
 		v := env.eval(x.Args[0])
 		ref := v.E
